@@ -48,7 +48,31 @@ CHECKS = {
     "C09": ("expand_subcircuits output compared with reference expansion (default, caller-supplied and named bounding gates, gate sets with and without the bounding gates, input header snapshot, repeated calls on one object); execution and output-list parsing compared between the subcircuit spelling and the prepare/measure spelling under the same numpy seed",
             "reference-model oracle + metamorphic execution pairs under a logical step budget"),
 }
-SECTION = {k: "DESIGN.md section 4 %s" % k for k in ["C%02d" % i for i in range(1, 21)]}
+# what the rounds of seeded changes added to each workload (DESIGN.md section 10.2 has the reasons)
+EXTRA = {
+    "C01": "also circuits made through the CircuitBuilder objects (numpy numbers) and circuits derived from the parts of a circuit that was already written out (re-used header objects, renamed copy() of each macro)",
+    "C02": "near misses also carry comments (multi-line block comments included); header-only entry points compared with the header of the full parse",
+    "C03": "busy gates with a unitary, repeated prepare, stretched variants, integer overrides, overrides applied after macro expansion (passes or parser options), programs run through run_jaqal_string / run_jaqal_file with their gates loaded from a pulse module",
+    "C04": "statements re-made by hand as GateStatement(definition, {name: value}) with the names in another order; wrong-arity calls nested in blocks, loops and other macros",
+    "C05": "the parser's own substitution routes (expand_let, expand_let_map); a quarter of the programs over the native gate set with that gate set in force",
+    "C06": "references that denote no element must be refused by every consumer; whole registers and aliases as gate arguments (element-wise resolution, used-qubit analysis, fill_in_map)",
+    "C07": "used-qubit analysis of calls in place and fill_in_map read back by name as further consumers; parameters handed over as Parameter objects",
+    "C08": "programs also built from S-expressions with subcircuit blocks directly as loop bodies; negative counts judged for termination only; valid programs refused at build time are violations",
+    "C09": "gate sets holding exactly one of the two bounding gates and caller names of which one is missing; subcircuit bodies with their own prepare/measure; statement-count invariant",
+    "C10": "programs with the gate set in force, with their gates loaded from a pulse module, and C06's alias-chain programs; parser flags combined with return_usepulses and the file entry point",
+    "C11": "circuits holding the experimental branch statement",
+    "C12": "idle-gate variants, overridden loop counts in both pipeline orders, circuits built through the CircuitBuilder (macros whose body is a subcircuit block), circuits that grow between two runs, two-level macros whose names hold other content from program to program, refusals at build time judged",
+    "C13": "call-site scope analysis with a step budget, typed macro parameters, forwarding macros, the busy native gate (also stretched) beside an active gate, whole registers and aliases as arguments",
+    "C14": "counting-down and empty aliases, faults behind let / override / macro argument, CircuitBuilder route with the statements inside eagerly built loops of four shapes, import-precedence probes",
+    "C15": "every string view handed out is kept and compared again after all other views were requested; deprecated and fractional views; output lists for programs without the harness gate set",
+    "C16": "hang probes in child processes, exact lexical positions, overflow templates, non-register templates, run_jaqal_string entry, import histories over five module layouts (relative / absolute, modules that fail while loading), missing search directories",
+    "C17": "random layout and comments on the text route, near-twin number literals, objects built eagerly or unevaluated",
+    "C18": "numpy numbers, values false in a truth test, constants defined through constants, one definition object shared by all calls of a signature, stretched_gates(update=True) with arbitrary keys, idle gates with names of their own, stretched variants called",
+    "C19": "zero counts, same-kind nestings and unscheduled / shared block objects assembled from core constructors, macros whose bodies are not in normal form, the same import twice",
+    "C20": "near-twin statements with hash-equal integers, loop/subcircuit exchange mutants, one text parsed with the shared gate set right after a near twin and with a gate set of its own",
+}
+
+SECTION = {k: "DESIGN.md section 4 %s and section 10.2" % k for k in ["C%02d" % i for i in range(1, 21)]}
 PENDING_REASON = "check not built yet in this session (work in progress; DESIGN.md section 4 has the plan)"
 
 
@@ -63,7 +87,7 @@ def main():
             "evidence_file": "evidence/%s.json" % pid,
             "replay_cmd_template": "./check %s --replay {path}" % pid,
             "engine": "vf",
-            "level_claimed": {"category": "exploration", "text": text + "; verdict = held on the executions observed (counts and feature histograms in the evidence file)", "design_ref": SECTION[pid]},
+            "level_claimed": {"category": "exploration", "text": text + ("; " + EXTRA[pid] if pid in EXTRA else "") + "; verdict = held on the executions observed (counts and feature histograms in the evidence file)", "design_ref": SECTION[pid]},
             "level_note": "trusts the harness's reference semantics (vf/meaning.py, vf/refexec.py, vf/refparse.py), its generators' coverage as listed in the evidence, and CPython; says nothing about inputs not generated",
             "technique": TECH % tech,
         })
